@@ -214,6 +214,7 @@ func suiteSvc(tier string, r *rng) func(emit func(pureCase)) {
 		// Start/Stop repeated: a restarted service must not serve what the previous run cached
 		for _, how := range []string{"stop", "closed"} {
 			emit(restartCase(how))
+			emit(stalledCase(how))
 		}
 		// Stop racing the end of an upgrade (known finding D20)
 		oneR([]string{"start", "conn", "stop"}, true)
@@ -257,6 +258,69 @@ func suiteSvc(tier string, r *rng) func(emit func(pureCase)) {
 			one(w)
 		}
 	}
+}
+
+// stalledCase: a client sends a request and then stops reading, so the gateway's write to it
+// blocks (the in-memory pipe has no buffer). Stop or connection loss must still close that socket
+// and finish well inside the bounded timeouts; afterwards the client can read nothing any more.
+func stalledCase(how string) pureCase {
+	pc := pureCase{line: "svc-stalled " + how, noModel: true, class: "stalled"}
+	m := newMockMQ()
+	cfg := server.Config{NoHTTP: true}
+	cfg.SetDefault()
+	serv, err := server.NewService(m, cfg)
+	if err != nil {
+		pc.specErr = err.Error()
+		return pc
+	}
+	serv.SetLogger(&memLogger{})
+	if err := serv.Start(); err != nil {
+		pc.specErr = err.Error()
+		return pc
+	}
+	d := wstest.NewDialer(serv.GetWSHandlerFunc())
+	ctx, cancel := context.WithTimeout(context.Background(), time.Second)
+	ws, _, err := d.DialContext(ctx, "ws://example.org/", http.Header{})
+	cancel()
+	if err != nil {
+		pc.impl = "connect-refused"
+		pc.specErr = "connect refused on a running service"
+		serv.Stop(nil)
+		return pc
+	}
+	defer ws.Close()
+	ws.WriteMessage(websocket.TextMessage, []byte(`{"id":1,"method":"version","params":{"protocol":"1.2.3"}}`))
+	ws.WriteMessage(websocket.TextMessage, []byte(`{"id":2,"method":"version","params":{"protocol":"1.2.3"}}`))
+	time.Sleep(20 * time.Millisecond) // the worker is now blocked writing the first response
+	t0 := time.Now()
+	done := make(chan struct{})
+	go func() {
+		if how == "stop" {
+			serv.Stop(nil)
+		} else {
+			m.lose(fmt.Errorf("lost"))
+		}
+		close(done)
+	}()
+	select {
+	case <-done:
+	case <-time.After(10 * time.Second):
+		pc.impl = "stop-hangs"
+		pc.specErr = "Stop did not return within 10 s with a client that does not read"
+		return pc
+	}
+	took := time.Since(t0)
+	// after Stop returned the socket must be closed: nothing more can be read from the gateway
+	ws.SetReadDeadline(time.Now().Add(500 * time.Millisecond))
+	_, b, rerr := ws.ReadMessage()
+	pc.impl = "stopped"
+	switch {
+	case rerr == nil:
+		pc.specErr = fmt.Sprintf("after %s returned the client that had stopped reading still received %q: its socket was not closed", how, string(b))
+	case took > 2*time.Second:
+		pc.specErr = fmt.Sprintf("%s took %v with one client that does not read (it waited for a timeout instead of closing the socket)", how, took.Round(time.Millisecond))
+	}
+	return pc
 }
 
 // restartCase: a client loads a resource, the service stops (Stop or connection loss) and is
